@@ -1282,6 +1282,53 @@ func niFlags(c *Ctx, a *flAgg) {
 			}
 		}
 	}
+	// -rel-path shows paths relative to their root, which only path guessing
+	// computes: the flag implies -rebase on every path that reaches process
+	{
+		boolFlag := func(e *Expr) string {
+			if e == nil || !(e.Op == OpInit || (e.Op == OpUn && e.Tok == token.MUL)) || len(e.Args) == 0 {
+				return ""
+			}
+			if fc := e.Args[0]; fc.Op == OpCall && fc.calleeIs("flag", "Bool") && len(fc.Args) >= 2 {
+				if s, ok := constStr(fc.Args[1]); ok {
+					return s
+				}
+			}
+			return ""
+		}
+		nRel, badRel := 0, ""
+		for _, p := range x.Paths {
+			rel := false
+			for _, lt := range p.Lits {
+				if lt.Pol && boolFlag(lt.Atom) == "rel-path" {
+					rel = true
+				}
+			}
+			if !rel {
+				continue
+			}
+			for _, ev := range p.Events {
+				if ev.Kind != EvCall || ev.Val.Op != OpCall || ev.Val.Fn == nil || ev.Val.Fn.Name() != "process" {
+					continue
+				}
+				for i, prm := range ev.Val.Fn.Params {
+					if prm.Name() != "rebase" || i+1 >= len(ev.Val.Args) {
+						continue
+					}
+					nRel++
+					if v, isC := ev.Val.Args[i+1].boolConst(); !isC || !v {
+						badRel = ev.Val.Args[i+1].String()
+					}
+				}
+			}
+		}
+		switch {
+		case badRel != "":
+			a.bad(rule, "Main/rel-path-implies-rebase", "with -rel-path given, process is started with rebase = "+badRel+" instead of true: with -rebase=false no relative path is ever computed and the file column shows the full remote paths", mainFn.Pos())
+		case nRel > 0:
+			a.ok(rule, "Main/rel-path-implies-rebase", "on every path with -rel-path the paths are rebased", mainFn.Pos())
+		}
+	}
 	if len(res) == 0 {
 		a.und(rule, "Main/call", "no explored path of Main reaches the call that starts processing", mainFn.Pos())
 		return
